@@ -25,7 +25,7 @@ RULE = ('bfs: state = dump of the edited AST (+ which foreign/new nodes); transi
         'edited ASTs that differ from the marked tree and reconcile successfully; traces = reconcile results compared')
 ASSUMPTIONS = ['mutations keep the AST valid Python (Dict keys/values in lock-step, no empty required lists); invalid results of '
                'unparse->parse are skipped']
-BOUNDS = {'quick': '40 programs depth 1 (all positions x 14 mutation kinds, default and non-default ambient options); depth 2 on 12 programs; second round on 12 programs',
+BOUNDS = {'quick': '44 programs depth 1 (all positions x 15 mutation kinds incl. every primitive field, default and non-default ambient options); depth 2 on 12 programs; second round on 12 programs',
           'thorough': '30 programs depth 1; depth 2 on 16; depth 3 on 3; second round everywhere'}
 
 PROGRAMS = list(PROGRAMS) + [  # primitives in tight layouts: literals touching keywords / dots, names containing 'as', relative imports
